@@ -12,12 +12,14 @@ import (
 )
 
 type CaseC17 struct {
-	Type string `json:"type"`
-	How  string `json:"how"` // zero | ctor | value
-	V    *Value `json:"v,omitempty"`
+	Type string  `json:"type"`
+	How  string  `json:"how"` // zero | ctor | value
+	V    *Value  `json:"v,omitempty"`
+	Pre  []PreOp `json:"pre,omitempty"` // prior calls in the same process (may unregister a checksum service)
 }
 
 func oracleC17(c *CaseC17) *Failure {
+	defer runPrelude(c.Pre)()
 	var obj any
 	switch c.How {
 	case "zero":
@@ -51,16 +53,39 @@ func TestC17(t *testing.T) {
 				Direct(t, "C17", "c17", "zero-and-ctor/"+tn+"/"+how, c, oracleC17)
 			}
 		}
+		// the five frames (the only callers of the checksum registry) with each service unregistered
+		for _, tn := range MyTypes() {
+			if !Types[tn].IsFrame() {
+				continue
+			}
+			for _, algo := range c14Algos {
+				for _, how := range []string{"zero", "ctor"} {
+					c := &CaseC17{Type: tn, How: how, Pre: []PreOp{{Kind: "unreg", Algo: algo}}}
+					Col.Case(Hash64([]byte(tn), []byte(how), []byte(algo)), true, "how:"+how, "a-checksum-service-unregistered")
+					Direct(t, "C17", "c17", "unreg/"+tn+"/"+how+"/"+algo, c, oracleC17)
+				}
+			}
+		}
 		Col.MarkExhaustive("zero value and constructor result of all 170 types")
 	})
 	for _, tn := range MyTypes() {
 		tn := tn
 		t.Run(tn, func(t *testing.T) {
 			CheckProp(t, "C17", "c17", tn, func(rt *rapid.T) *CaseC17 {
+				pre, _ := genPrelude(rt, tn, true)
 				v, ft := GenValue(rt, tn, DefaultOpts(Arbitrary))
-				c := &CaseC17{Type: tn, How: "value", V: v}
+				c := &CaseC17{Type: tn, How: "value", V: v, Pre: pre}
 				nt := ft.Absent > 0 || ft.NilLists > 0
 				cls := append(ft.Classes(), "how:value")
+				if len(pre) > 0 {
+					cls = append(cls, "after-prior-calls")
+				}
+				for _, op := range pre {
+					if op.Kind == "unreg" {
+						cls = append(cls, "a-checksum-service-unregistered")
+						nt = true
+					}
+				}
 				Col.Case(Hash64(JSONOf(c)), nt, cls...)
 				Col.Program(tn)
 				if nt && Col.WantSample("value") && len(JSONOf(c)) < 1500 {
